@@ -7,7 +7,6 @@ From RU Require Import Base.Prelude Base.Utf8 Model.AsciiSet Gen.Tables Model.Pe
   Proofs.C06_Path Proofs.C06_Segments Proofs.C06_SegPush Proofs.C06_SegFile.
 Open Scope N_scope.
 Open Scope list_scope.
-Open Scope string_scope.
 
 (* file:///tmp/a *)
 Definition ft_url : url := mkUrl (B "file:///tmp/a") 4 7 7 7 HI_None None 7 None None.
